@@ -629,6 +629,12 @@ func crashSignature(out, repo string) string {
 	if !strings.Contains(out, "panic:") && !strings.Contains(out, "fatal error:") {
 		return ""
 	}
+	if strings.Contains(out, "synctest channel from outside bubble") || strings.Contains(out, "synctest timer from outside bubble") {
+		// a package-level variable of the (changed) tree carried a channel or timer from one
+		// simulated process into the next: in reality a restart resets it. That is a limit of
+		// running many simulated processes in one OS process, not a verdict on the code.
+		return ""
+	}
 	lines := strings.Split(out, "\n")
 	for i, l := range lines {
 		t := strings.TrimSpace(l)
